@@ -54,9 +54,36 @@ Example C09_example :
   = words_of_source [Chunk [1;2;3;4;5]%N false].
 Proof. vm_compute. split; reflexivity. Qed.
 
+(** ---- tie to the CURRENT source (coq/Gen, regenerated on every run) ---- *)
+From Spg.Gen Require Source Effects.
+From Coq Require Import String.
+Open Scope string_scope.
+(** packages that carry no randomness, clock, process or runtime state *)
+Definition pure_allow : list string :=
+  ["encoding/binary"; "fmt"; "math"; "math/big"; "strings"; "sort"; "log"; "errors"; "unicode"; "unicode/utf8"; "strconv"; "bytes";
+   "math/bits"; "github.com/deckarep/golang-set"].
+Definition in_library (file : string) : bool := negb (String.prefix "cmd/" file).
+(** the library imports crypto/rand and otherwise only pure packages: no math/rand, time, os, runtime, unsafe, sync/atomic, ... *)
+Theorem C09_only_crypto_rand_is_imported :
+  forallb (fun f => negb (in_library (fst f)) ||
+             forallb (fun i => String.eqb i "crypto/rand" || existsb (String.eqb i) pure_allow) (snd f)) Source.src_imports = true /\
+  map fst (filter (fun f => in_library (fst f) && existsb (String.eqb "crypto/rand") (snd f)) Source.src_imports) = ["util.go"].
+Proof. vm_compute. split; reflexivity. Qed.
+(** crypto/rand is read in exactly one function, through rand.Read (io.ReadFull semantics); every draw goes through it *)
+Theorem C09_single_entry_point :
+  map (fun c => (Effects.c_func c, Effects.c_callee c))
+      (filter (fun c => String.prefix "ext:crypto/rand" (Effects.c_callee c) || String.prefix "ext:math/rand" (Effects.c_callee c) ||
+                        String.prefix "ext:time." (Effects.c_callee c) || String.prefix "ext:os." (Effects.c_callee c)) Effects.eff_calls)
+  = [("randomUint32", "ext:crypto/rand.Read")] /\
+  map Effects.c_func (filter (fun c => String.eqb (Effects.c_callee c) "randomUint32") Effects.eff_calls) = ["randomUint32n"; "randomUint32n"; "randomUint32n"].
+Proof. vm_compute. split; reflexivity. Qed.
+Close Scope string_scope.
+
 Print Assumptions C09_words_from_bytes.
 Print Assumptions C09_chunking_invariant.
 Print Assumptions C09_fault_ends_stream.
 Print Assumptions C09_error_with_full_read_dropped.
 Print Assumptions C09_fail_closed.
 Print Assumptions C09_password_only_from_complete_words.
+Print Assumptions C09_only_crypto_rand_is_imported.
+Print Assumptions C09_single_entry_point.
